@@ -433,6 +433,64 @@ def spoe_stage(ctx):
 # ---------------------------------------------------------------------------------------------------------------------
 
 
+def swap_stage(ctx, replay_obj=None, path=None):
+    """(2e) "while ... policies are being swapped": transactions' policy lookups (request side, response side) overlapping
+    updates of the policies - calls held at the yield points inside GetTxnPoliciesData / UpdatePoliciesData while updates /
+    lookups run, overlapping updates.  The sequential meaning of the accessor is C11's property specification (PinP: the
+    request and the response of a transaction are handled with the same policies version while it is retained); the
+    executor is C11's (harness/cmd/c11), the histories are its random ones with the held-call transformation applied to
+    every eligible pair, judged by PinTrace."""
+    import c11
+    T = ctx.thorough
+    binary = ctx.build_harness("c11")
+
+    def rejected_of(trace, tag):
+        _, rej, _ = validate_history_trace(ctx, c11.SPEC, "PinTrace", trace, tag=tag, max_rounds=4)
+        return rej
+
+    if replay_obj is not None:
+        for attempt in range(5):
+            t = c11.execute(ctx, binary, replay_obj["script"], "replay")[0]
+            rej = rejected_of(t, "replay")
+            if rej:
+                print(json.dumps(c11.witness_of(rej[0])))
+                print("VIOLATION property=C18 replay=%s" % path)
+                return 1
+        print("re-execution (5 runs of the script) accepted by the specification")
+        return 0
+
+    scripts = []
+    for i in range(2 if not T else 8):
+        hs = []
+        for _ in range(12 if not T else 30):
+            h = c11.rand_history(ctx.rng, T)
+            for _ in range(3):                 # gapify turns each eligible pair into a held call with probability 1/2
+                h = c11.gapify(ctx.rng, h)
+            hs.append(h)
+        scripts.append({"histories": hs})
+    traces = c11.execute(ctx, binary, scripts, "swap")
+    held = 0
+    for ti, ev in enumerate(traces):
+        _, hs = split_histories(ev)
+        held += sum(1 for h in hs for e in h if "cs" in e or "gap" in e)
+        rej = rejected_of(ev, "swap%d" % ti)
+        ctx.cov["traces_validated_against_impl"] += len(hs) - len(rej)
+        ctx.cov["evaluations"] += sum(1 for h in hs for e in h if e.get("ev") in ("lookup", "update"))
+        for r in rej:
+            w = c11.witness_of(r)
+            w["level"] = "policy-swap"
+            j = next(k for k, h in enumerate(hs) if h == r["hist"])
+            script = [{"histories": [scripts[ti]["histories"][j]]}]
+            t2 = c11.execute(ctx, binary, script, "swap-repro")[0]
+            r2 = rejected_of(t2, "swap-repro")
+            if not r2:
+                raise Broken("policy-swap rejection not reproduced: %s" % json.dumps(w)[:400])
+            ctx.violation(w, {"stage": "swap", "script": script, "trace": [r["config"]] + r["hist"], "rejected_at": r["at"]})
+    if held == 0:
+        raise Broken("policy-swap stage: no call was held at a yield point")
+    ctx.notes.append("policy-swap stage: %d histories, %d held calls / overlapping updates" % (sum(len(s["histories"]) for s in scripts), held))
+
+
 def vacuum_stage(ctx, replay_obj=None, path=None):
     """(2d) toolkit-core's MapVacuum (anchored state "vacuum entry list"): registrations from several goroutines while the
     background pass runs.  Model: VacuumI (one action per critical section; writing the snapshot back is refuted).  Real code:
@@ -661,6 +719,7 @@ def run(ctx):
     ctx.sample({"kind": "recorded-concurrent-history", "events": split_histories(traces[0])[1][0][:16]})
     judge(ctx, binary, scripts, traces, "rand")
     spoe_stage(ctx)        # (2b) the same through the real SPOE message handler (harness/cmd/c18h)
+    swap_stage(ctx)        # (2e) policy lookups of transactions overlapping policy updates (C11's executor and property spec)
     vacuum_stage(ctx)      # (2d) MapVacuum under concurrent registrations (harness/cmd/c18v, VacuumI / VacuumP / VacuumTrace)
     reload_stage(ctx)      # (2c) transactions while the flows are being reloaded (harness/cmd/c18h reload, ReloadLinTrace)
 
@@ -756,6 +815,8 @@ def replay(ctx, path):
         if rc:
             print("VIOLATION property=C18 replay=%s" % path)
         return rc
+    if obj["replay"].get("stage") == "swap":
+        return swap_stage(ctx, obj["replay"], path)
     if obj["replay"].get("stage") == "vacuum":
         return vacuum_stage(ctx, obj["replay"], path)
     binary = ctx.build_harness(obj["replay"].get("harness", "c18"))       # "c18h": recorded through the SPOE handler
